@@ -36,6 +36,12 @@ def arms_of_call_arg(ctx, key, callee, idx, what):
     l = trace_local(f, l) if l is not None else None
     r = phi_arms(f, v, l) if l is not None else None
     if r is None:
+        # the selected value travels through a wrapper (`Cow::Borrowed(x)` / `Cow::Owned(f(x))` .. `.as_ref()`, a helper call): the
+        # argument's term is still `phi(local: arm, arm)`; read the arms at that local
+        T = v.call_args(cs[0][0])[idx]
+        if isinstance(T, tuple) and T and T[0] == "phi" and T[1][0] == f.key:
+            r = phi_arms(f, v, T[1][1])
+    if r is None:
         ctx.violation("AGREE", key, what + ":not-two-armed",
                       "argument %d of %s in %s is not selected by a single parity test any more" % (idx, callee, short(key)), f.loc)
     return (f, v, cs[0], r)
